@@ -700,7 +700,7 @@ def run(ctx):
     ctx.inst('RF3.handles', len(handles.fields))
     ctx.inst('RF3.sites', handles.sites)
     allp = sorted(set(p for v in HANDLE_PROPS.values() for p in v) | set(['C20']))
-    ctx.require_min(allp, 'RF3', len(handles.fields), MIN_HANDLES, 'timer handle fields')
+    ctx.require_min(allp, 'RF3', len(handles.fields), MIN_HANDLES - (0 if getattr(m, 'has_lss', True) else 1) - (0 if getattr(m, 'has_csdo', True) else 1), 'timer handle fields')
     ctx.require_min(allp, 'RF3', handles.sites, MIN_SITES, 'create/delete/store sites')
     for fld in handles.fields:
         if fld not in HANDLE_PROPS:
@@ -833,7 +833,9 @@ def run(ctx):
                         ctx.ob(props, 'RF3-H1', f, site, 'exception: ' + why_exc)
                         continue
                 if fails:
-                    extra = ['C20'] if any('CONmtReset' in c for ch in fails for c in ch) else []
+                    reset_reach = m.reachable_funcs(['CONmtReset'])
+                    extra = ['C20'] if any(('CONmtReset' in c) or (c.split(' ')[0].split('(')[0] in reset_reach)
+                                           for ch in fails for c in ch) else []
                     ps = props_of(fld, extra)
                     ctx.ob(ps, 'RF3-H1', f, site, None)
                     chains = sorted(set(' <- '.join(ch) for ch in fails))
